@@ -375,6 +375,103 @@ println(c.n)
 	}},
 }
 
+func init() {
+	noCrash := func(l []string) string {
+		if len(l) == 0 || l[len(l)-1] != "done" {
+			return "program did not run to completion"
+		}
+		return ""
+	}
+	scens = append(scens,
+		scen{"P9-stray-read-unlock-with-pending-reader", `
+using Std::Sync::{RWMutex, WaitGroup}
+rw := RWMutex()
+wg := WaitGroup(2)
+rw.lock
+go
+  rw.read_lock
+  println("reader-in")
+  do
+    rw.read_unlock
+  catch e
+    println("reader-unlock-err")
+  end
+  wg.end
+end
+go
+  do
+    rw.read_unlock
+    println("stray-ok")
+  catch e
+    println("stray-err")
+  end
+  wg.end
+end
+rw.unlock
+wg.wait
+println("done")
+`, noCrash},
+		scen{"P10-two-unlockers-one-lock", `
+using Std::Sync::{Mutex, WaitGroup}
+m := Mutex()
+wg := WaitGroup(2)
+m.lock
+go
+  do
+    m.unlock
+    println("u-ok")
+  catch e
+    println("u-err")
+  end
+  wg.end
+end
+go
+  do
+    m.unlock
+    println("u-ok")
+  catch e
+    println("u-err")
+  end
+  wg.end
+end
+wg.wait
+println("done")
+`, func(l []string) string {
+			if count(l, "u-ok") != 1 || count(l, "u-err") != 1 || l[len(l)-1] != "done" {
+				return "exactly one of two concurrent unlocks of a once-locked mutex must succeed, the other must raise the unlock error"
+			}
+			return ""
+		}},
+		scen{"P11-stray-write-unlock-with-pending-writer", `
+using Std::Sync::{RWMutex, WaitGroup}
+rw := RWMutex()
+wg := WaitGroup(2)
+rw.read_lock
+go
+  rw.lock
+  println("writer-in")
+  do
+    rw.unlock
+  catch e
+    println("writer-unlock-err")
+  end
+  wg.end
+end
+go
+  do
+    rw.unlock
+    println("stray-ok")
+  catch e
+    println("stray-err")
+  end
+  wg.end
+end
+rw.read_unlock
+wg.wait
+println("done")
+`, noCrash})
+}
+
 // single-threaded misuse sequences: must raise Elk errors, never kill the process
 type misuse struct {
 	name, src string
@@ -400,7 +497,7 @@ func main() {
 	engine.Main(&engine.Spec{
 		Prop:  "C25",
 		Level: "model_checking",
-		Rule: "12 multi-threaded Elk scenarios (producer/consumer at capacities 0,1,2; two producers; close racing push; select with ready/unready cases; mutex-protected read-modify-write; RWMutex writer vs readers; WaitGroup; Once) on the real VM under the controlled scheduler: every schedule with at most B preemptions (quick 2, thorough 3) over scheduling points at every channel/lock/wait-group/once/go/select operation and after every release, ready select cases enumerated instead of random; " +
+		Rule: "15 multi-threaded Elk scenarios (producer/consumer at capacities 0,1,2; two producers; close racing push; select with ready/unready cases; mutex-protected read-modify-write; RWMutex writer vs readers; WaitGroup; Once; stray read_unlock/unlock racing a pending reader/writer; two concurrent unlocks of one lock) on the real VM under the controlled scheduler: every schedule with at most B preemptions (quick 2, thorough 3) over scheduling points at every channel/lock/wait-group/once/go/select operation and after every release, ready select cases enumerated instead of random; " +
 			"plus 10 single-threaded misuse sequences (unlock not held, negative wait group, push/pop/close on closed channel) that must raise Elk errors; oracle per scenario: delivery exactly once, per-producer FIFO, select takes only ready cases, mutual exclusion, run-once, no deadlock, no host panic/fatal; non-trivial = scenarios with at least 50 schedules",
 		Assume:      []string{"interpreter code between scheduling points runs atomically (critical sections contain an inner lock operation so that broken exclusion is observable)", "timers not modelled"},
 		CaseTimeout: 15 * time.Minute,
